@@ -172,7 +172,15 @@ fn gen_metal(src: &mut Src, horiz: bool, pp: i64, allow_asym_flip: bool) -> MMet
     entries[mid].1 += target - total;
     // sometimes written with a Repeat group (gap, signal) when the signals are uniform
     let repeat = None;
-    let mut mm = MMetal { horiz, entries, repeat, offset, overlap, flip, cutsize: even(src, 2, 12), m };
+    // cut sizes: even as a rule; now and then odd (half of it is rounded down on either side of the crossing)
+    // or so small (0, 1) that a cut has no extent and merely separates two wire pieces
+    let cutsize = match src.weighted(&[12, 2, 1, 1]) {
+        0 => even(src, 2, 12),
+        1 => 2 * src.i64_in(1, 5) + 1,
+        2 => 1,
+        _ => 0,
+    };
+    let mut mm = MMetal { horiz, entries, repeat, offset, overlap, flip, cutsize, m };
     // an offset may be a pitch or more: the whole pattern is shifted by that many periods
     mm.offset += mm.pitch() * *src.pick(&[0i64, 0, 0, 0, 1, -1, 2]);
     mm
@@ -363,7 +371,9 @@ fn gen_cell(src: &mut Src, st: &MStack, name: &str, lower: &[MCellT], max_size: 
             if !((clear(l, along_l, kl) || over(l, along_l, kl)) && (clear(cl, along_c, kc) || over(cl, along_c, kc))) {
                 continue;
             }
-            if !LOOSE_OVER_ASSIGN.with(|c| c.get()) && used.iter().any(|u| (u.0 == l && u.1 == t && along_l >= u.2 - reach && along_l <= u.3 + reach) || (u.0 == cl && u.1 == c && along_c >= u.2 - reach && along_c <= u.3 + reach)) {
+            // (a cut without extent exactly at an assigned crossing leaves open which of the two abutting pieces
+            // "covers" the crossing: never generated)
+            if !(LOOSE_OVER_ASSIGN.with(|c| c.get()) && ml.cutsize / 2 > 0 && mc.cutsize / 2 > 0) && used.iter().any(|u| (u.0 == l && u.1 == t && along_l >= u.2 - reach && along_l <= u.3 + reach) || (u.0 == cl && u.1 == c && along_c >= u.2 - reach && along_c <= u.3 + reach)) {
                 continue;
             }
             if along_l <= 0 || along_l >= span_of(st, l, size) || along_c <= 0 || along_c >= span_of(st, cl, size) {
@@ -391,7 +401,7 @@ fn gen_cell(src: &mut Src, st: &MStack, name: &str, lower: &[MCellT], max_size: 
             }
             // loose mode: cut requests may run over the outline edge and over other cuts (never over the
             // crossing of an assignment): the compiler must refuse them or realise them, not ignore them
-            let over_assign = LOOSE_OVER_ASSIGN.with(|c| c.get());
+            let over_assign = LOOSE_OVER_ASSIGN.with(|c| c.get()) && ml.cutsize / 2 > 0;
             if used.iter().any(|u| u.0 == l && u.1 == t && lo <= u.3 + reach && hi >= u.2 - reach && !(loose && (u.2 != u.3 || over_assign))) {
                 continue;
             }
@@ -451,9 +461,16 @@ pub fn build(m: &MLibT) -> Result<BuiltT, String> {
                     reps += 1;
                 }
             }
+            // (a group repeated zero times contributes nothing, wherever it stands; a group repeated once is its content)
+            if (mm.cutsize + mm.m + i as i64 + i2 as i64) % 7 == 0 {
+                specs.push(TrackSpec::repeat(vec![TrackEntry { ttype: TrackType::Gap, width: 6isize.into() }, TrackEntry { ttype: TrackType::Signal, width: 4isize.into() }], 0));
+            }
             if reps >= 2 && (i % 2 == 0) {
                 specs.push(TrackSpec::repeat(vec![entry(&e[i2]), entry(&e[i2 + 1])], reps));
                 i2 += 2 * reps;
+            } else if i2 + 1 < e.len() && e[i2].0 == TT::Gap && e[i2 + 1].0 == TT::Sig && (mm.cutsize + i2 as i64) % 5 == 0 {
+                specs.push(TrackSpec::repeat(vec![entry(&e[i2]), entry(&e[i2 + 1])], 1));
+                i2 += 2;
             } else {
                 specs.push(TrackSpec::Entry(entry(&e[i2])));
                 i2 += 1;
